@@ -96,10 +96,12 @@ MVEnd(e) ==
   /\ UNCHANGED <<cyc, ran, pubs, subm, finSeen, waitSeen, code>> /\ Keep
 
 \* the executor seam: the vertex is started / GraphVertex::run has returned (its closure is done).
-\* After wait() returned the run has to be quiescent: nothing of it may be started any more.
+\* After wait() returned a successful run has to be quiescent: nothing of it may be started any more.
+\* (A run that failed while another thread was still publishing one of its inputs is over: what that late input
+\*  starts afterwards is outside the property -- such runs are judged up to the error code only.)
 MVSub(e) ==
   /\ subm' = subm \cup {e.v}
-  /\ bad' = Flags(<< <<~InRun, "Protocol">>, <<e.v \in subm, "RunAtMostOnce">>, <<waitSeen, "QuiescentAfterWait">> >>)
+  /\ bad' = Flags(<< <<~InRun, "Protocol">>, <<e.v \in subm, "RunAtMostOnce">>, <<waitSeen /\ (code = 0 \/ R.ij = 0), "QuiescentAfterWait">> >>)
   /\ UNCHANGED <<cyc, ran, running, pubs, finSeen, waitSeen, code>> /\ Keep
 
 MVDone(e) ==
@@ -126,7 +128,7 @@ MFin(e) ==
 MWaitRet(e) ==
   /\ waitSeen' = TRUE
   /\ bad' = Flags(<< <<~InRun, "Protocol">>,
-                     <<running # {} \/ subm # {}, "WaitReturnsAfterAllFinished">>,
+                     <<(running # {} \/ subm # {}) /\ (code = 0 \/ R.ij = 0), "WaitReturnsAfterAllFinished">>,
                      <<~finSeen, "WaitReturnsAfterAllFinished">> >>)
   /\ UNCHANGED <<cyc, ran, running, pubs, subm, finSeen, code>> /\ Keep
 
